@@ -152,7 +152,7 @@ pub fn run(cfg: &Cfg, rep: &mut Report) {
 
   // thread part: an emitting thread races the unsubscribing thread (baton scheduler)
   let n = cfg.n(12_000, 600_000);
-  let fams = [0usize, 2, 3, 4, 5, 6, 7, 8, 9, 11, 12, 13, 15, 16, 17, 18, 20, 23];
+  let fams = [0usize, 2, 3, 4, 5, 6, 7, 8, 9, 11, 12, 13, 15, 16, 17, 18, 20, 23, 24, 25];
   super::thr::systematic_families(cfg, rep, 0xC02A, &fams, &|s, r| {
     if !s.threads.iter().flatten().any(|op| matches!(op, super::thr::TOp::Unsub(0))) {
       let t = r.below(s.threads.len());
